@@ -17,8 +17,9 @@ REQUIRED_THEOREMS = ["C07_length", "C07_copy", "C07_parents_sorted", "C07_parent
                      "C07_selection_interval", "C07_lse_spec", "C07_lse_normalises",
                      "C07p_num_prior", "C07p_partition", "C07p_parents", "C07p_copy", "C07p_uniform", "C07p_reports_N", "C07p_count_bound"]
 RULE = ("cases from one seeded stream: N in 1..200, log-weight vectors uniform / one-hot / with exact zeros (-inf) / geometric over 300 "
-        "orders of magnitude / dyadic / random / with exact ties, layouts (dl in 1..4, dc in 0..2), 32-bit seeds, 1..3 successive draws on the "
-        "same object; prior variant with ratio in {0, 0.25, 0.5, 0.9, random in [0,1)} and a counting or grid initialiser; "
+        "orders of magnitude / dyadic / random / with exact ties, layouts linear / Euler-circular / quaternion (dc in 1..2, with and without a "
+        "linear part; dim != dim_covariance for quaternions), 32-bit seeds, 1..3 successive draws on the same object, an earlier call with another N "
+        "on the same object (explicit corpus + 12%); prior variant with ratio in {0, 0.25, 0.5, 0.9, random in [0,1)} and a counting or grid initialiser; "
         "non-trivial = N >= 2 and not uniform; distinct by (kind, weight class, N, ratio class)")
 TRUSTED_BASE = ["Coq 8.16.1 kernel (coqc); the four real-number axioms of the standard library (sig_forall_dec, sig_not_dec, functional_extensionality_dep, classic)",
                 "extraction (ExtrOcamlBasic only) and ocaml/float_ops.ml, ocaml/drv_C07.ml, ocaml/caseio.ml",
@@ -37,6 +38,67 @@ _stats = {"near_boundary_skipped": 0, "tie_cases": 0}
 
 
 # ------------------------------------------------------------------ generation
+
+M64 = (1 << 64) - 1
+
+
+def mt64_first(seed):
+    """first output of std::mt19937_64(seed)"""
+    mt = [seed & M64]
+    for i in range(1, 157):
+        mt.append((6364136223846793005 * (mt[i - 1] ^ (mt[i - 1] >> 62)) + i) & M64)
+    y = (mt[0] & 0xFFFFFFFF80000000) | (mt[1] & 0x7FFFFFFF)
+    x = mt[156] ^ (y >> 1) ^ (0xB5026F5AA96619E9 if (y & 1) else 0)
+    x ^= (x >> 29) & 0x5555555555555555
+    x ^= (x << 17) & 0x71D67FFFEDA60000
+    x ^= (x << 37) & 0xFFF7EEE000000000
+    x ^= x >> 43
+    return x & M64
+
+
+def first_u1(seed, N):
+    """std::uniform_real_distribution<double>(0, 1.0/N) applied to the first output (libstdc++ generate_canonical<double, 53>)"""
+    r = float(mt64_first(seed)) / 18446744073709551616.0
+    if r >= 1.0:
+        r = math.nextafter(1.0, 0.0)
+    return (1.0 / N - 0.0) * r + 0.0
+
+
+def special_case(rng, cid, which, N):
+    """plain cases aimed at the two comparisons of the carried-pointer loop (needs the offset the seed will produce):
+    'guard': sum of the weights 1 - 1e-3 and u1 in the top of its range, so that u_{N-1} > csw(N-1) and only the
+             guard idx < N-1 stops the pointer; 'tie': csw(0) == u_j exactly for some j (u_j > csw must not advance)."""
+    for _ in range(20000):
+        seed = rng.randrange(0, 2 ** 32)
+        u1 = first_u1(seed, N)
+        if which == "guard":
+            w = np.array([rng.random() + 0.01 for _ in range(N)]); w = w / w.sum() * (1.0 - 1e-3)
+            lw = np.log(w)
+            acc = math.exp(lw[0])
+            for i in range(1, N):
+                acc = acc + math.exp(lw[i])
+            if not (u1 + float(N - 1) / N > acc):
+                continue
+        else:
+            j = rng.randrange(0, N)
+            x = u1 + float(j) / N
+            if not (0.0 < x < 1.0):
+                continue
+            l0 = math.log(x)
+            if math.exp(l0) != x:
+                continue
+            rest = np.array([rng.random() + 0.01 for _ in range(N - 1)]); rest = rest / rest.sum() * (1.0 - x)
+            lw = np.concatenate([[l0], np.log(rest)])
+        dl, dc, quat = pick_layout(rng)
+        meta = {"N": N, "cls": which, "dl": dl, "dc": dc, "quat": quat, "u1_expect": caseio.fmt(u1)}
+        c = caseio.Case(cid, "plain", meta)
+        c.mat_shape("lw", N, 1, lw)
+        payload(rng, c, N, meta)
+        c.int("seed", seed)
+        c.int("draws", 1)
+        return c
+    return None
+
 
 def weights(rng, N, cls):
     if cls == "uniform":
@@ -79,46 +141,105 @@ def pick_N(rng):
     return rng.randint(41, 200)
 
 
-def payload(rng, c, N, dl, dc):
-    d = dl + dc
+def dims(meta):
+    """(dim, dim_covariance) of a layout: a quaternion takes 4 state rows and 3 covariance rows"""
+    dl, dc, q = int(meta["dl"]), int(meta["dc"]), int(meta.get("quat", 0))
+    return dl + dc * (4 if q else 1), dl + dc * (3 if q else 1)
+
+
+def pick_layout(rng):
+    r = rng.random()
+    if r < 0.3:
+        return rng.randint(1, 4), 0, 0                      # linear only
+    if r < 0.55:
+        return rng.randint(0, 3), rng.randint(1, 2), 0      # Euler-circular, with and without a linear part
+    return rng.randint(0, 3), rng.randint(1, 2), 1          # quaternions, with and without a linear part
+
+
+def payload(rng, c, N, meta):
+    d, dcov = dims(meta)
     st = np.array([[rng.uniform(-5, 5) for _ in range(N)] for _ in range(d)])
     st[0, :] = ID0 + np.arange(N)
     c.mat_shape("state", d, N, st)
     c.mat_shape("mean", d, N, [[rng.uniform(-5, 5) for _ in range(N)] for _ in range(d)])
-    c.mat_shape("cov", d, d * N, [[rng.uniform(-2, 2) for _ in range(d * N)] for _ in range(d)])
+    c.mat_shape("cov", dcov, dcov * N, [[rng.uniform(-2, 2) for _ in range(dcov * N)] for _ in range(dcov)])
+
+
+def corpus(rng):
+    """hand-picked cases kept explicit in every tier: two calls on ONE object with different particle counts
+    (the 1/N range of the offset must follow each call's set), plain and prior, linear and quaternion layouts"""
+    out = []
+    for i, (kind, N1, N, lay, ratio) in enumerate([("plain", 3, 40, (2, 0, 0), None), ("plain", 50, 4, (1, 1, 1), None),
+                                                    ("prior", 5, 30, (2, 1, 1), 0.5), ("prior", 60, 6, (0, 2, 1), 0.25),
+                                                    ("plain", 2, 17, (0, 1, 0), None), ("prior", 7, 21, (3, 0, 0), 0.0)]):
+        meta = {"N": N, "cls": "random", "dl": lay[0], "dc": lay[1], "quat": lay[2], "first": N1}
+        if kind == "prior":
+            meta.update({"rclass": "fixed", "init": "count"})
+        c = caseio.Case("corpus%d" % i, kind, meta)
+        if kind == "prior":
+            c.mat_shape("ratio", 1, 1, [ratio])
+        c.mat_shape("lw", N, 1, weights(rng, N, "random"))
+        c.mat_shape("lw_first", N1, 1, weights(rng, N1, "random"))
+        payload(rng, c, N, meta)
+        c.int("seed", 1 + i)
+        c.int("draws", 1)
+        out.append(c)
+    return out
 
 
 def generate(rng, tier):
-    cases = []
+    cases = corpus(rng)
     n = COUNTS[tier]
+    for q in range(max(8, n // 25)):
+        sc = special_case(rng, "sp%d" % q, "guard" if q % 2 == 0 else "tie", rng.randint(2, 60))
+        if sc is not None:
+            cases.append(sc)
     for k in range(n):
         prior = rng.random() < 0.4
         cls = rng.choice(CLASSES)
         N = pick_N(rng)
         if cls == "dyadic":
             N = 2 ** rng.randint(0, 7)
-        dl, dc = rng.randint(1, 4), rng.randint(0, 2)
-        meta = {"N": N, "cls": cls, "dl": dl, "dc": dc}
+        dl, dc, quat = pick_layout(rng)
+        meta = {"N": N, "cls": cls, "dl": dl, "dc": dc, "quat": quat}
         lw = weights(rng, N, cls)
         if prior:
-            rc = rng.choice(["0", "0.25", "0.5", "0.9", "rnd"])
+            rc = rng.choice(["0", "0.25", "0.5", "0.7", "0.9", "0.999", "rnd"])
             ratio = rng.random() if rc == "rnd" else float(rc)
+            if rc == "0.7" and rng.random() < 0.5:
+                N = 10           # 10 * 0.7 is 7.000000000000001 in doubles (floor 7) although the double 0.7 is below 7/10
+                lw = None
             npri = int(math.floor(N * ratio))
+            if lw is None:
+                meta["N"] = N
+                lw = weights(rng, N, cls)
+                npri = int(math.floor(N * ratio))
             meta["rclass"] = rc
             meta["init"] = "count"
-            if rng.random() < 0.25:
+            meta["presize"] = rng.choice([0, 0, 0, -3, 2]) if N > 3 else 0
+            meta["xfer"] = rng.choice(["none", "none", "move_assign"])
+            if rng.random() < 0.08 and npri >= 1:
+                # an initialiser that fails (grid of another size): returns false, writes nothing; resample ignores it
+                dl, dc, quat = 4, 0, 0
+                meta.update({"init": "gridfail", "nx": npri + 1, "ny": 2, "dl": dl, "dc": dc, "quat": quat})
+            elif rng.random() < 0.25:
                 # the shipped grid initialiser: needs a 4-row state and num_prior = nx*ny
                 fac = [(a, npri // a) for a in range(2, 12) if npri % a == 0 and npri // a >= 2]
                 if fac:
                     nx, ny = rng.choice(fac)
-                    dl, dc = 4, 0
-                    meta.update({"init": "grid", "nx": nx, "ny": ny, "dl": dl, "dc": dc})
+                    dl, dc, quat = 4, 0, 0
+                    meta.update({"init": "grid", "nx": nx, "ny": ny, "dl": dl, "dc": dc, "quat": quat})
             c = caseio.Case(k, "prior", meta)
             c.mat_shape("ratio", 1, 1, [ratio])
         else:
+            meta["xfer"] = rng.choice(["none", "none", "copy_ctor", "move_ctor", "move_assign", "copy_assign"])
             c = caseio.Case(k, "plain", meta)
         c.mat_shape("lw", N, 1, lw)
-        payload(rng, c, N, dl, dc)
+        if rng.random() < 0.12:
+            N1 = pick_N(rng)
+            meta["first"] = N1; c.meta["first"] = N1
+            c.mat_shape("lw_first", N1, 1, weights(rng, N1, "random"))
+        payload(rng, c, N, meta)
         c.int("seed", rng.randrange(0, 2 ** 32))
         c.int("draws", rng.choice([1, 1, 1, 2, 3]))
         cases.append(c)
@@ -127,7 +248,7 @@ def generate(rng, tier):
 
 def nontrivial(c):
     if int(c.meta["N"]) >= 2 and c.meta["cls"] != "uniform":
-        return (c.kind, c.meta["cls"], c.meta["N"], c.meta.get("rclass", "-"))
+        return (c.kind, c.meta["cls"], c.meta["N"], c.meta.get("rclass", "-"), c.meta["dl"], c.meta["dc"], c.meta.get("quat", 0))
     return None
 
 
@@ -155,7 +276,7 @@ def same_bits(a, b):
 def column_of(c, name, i):
     """particle i's block of an input operand"""
     a = c.get(name)
-    d = c.get("state").shape[0]
+    d = c.get("cov").shape[0]          # dim_covariance
     if name == "cov":
         return a[:, i * d:(i + 1) * d]
     return a[:, i:i + 1]
@@ -180,12 +301,14 @@ def impl_sources(impl, N):
 
 
 def is_copy(c, impl, j, i):
-    d = c.get("state").shape[0]
+    d = c.get("cov").shape[0]          # dim_covariance: width of one covariance block
     return all(same_bits(impl_block(impl, nm, j, d), column_of(c, nm, i)) for nm in ("state", "mean", "cov"))
 
 
 def fresh_expected(c, npri):
     d = c.get("state").shape[0]
+    if c.meta.get("init") == "gridfail":
+        return np.zeros((d, npri))      # a fresh (zero) set the failed initialiser did not touch
     if c.meta.get("init") == "grid":
         nx, ny = int(c.meta["nx"]), int(c.meta["ny"])
         out = np.zeros((d, npri))
@@ -203,9 +326,11 @@ def compare(c, impl, model):
     lw = c.get("lw").reshape(-1)
     diffs = caseio.compare_fields(impl, model, ["neff"], atol=0.0, rtol=1e-12)
     diffs += caseio.compare_fields(impl, model, ["weights"], atol=1e-15, rtol=0.0)
-    near = near_boundary(model)
+    near = near_boundary(model) if c.kind != "plain" else False     # the plain path is bit-identical on both sides: never skipped
     if near:
         _stats["near_boundary_skipped"] += 1
+    if "u1_expect" in c.meta and caseio.parse_float(c.meta["u1_expect"]) != impl.get("u1"):
+        diffs.append("u1: the Python mirror of mt19937_64/uniform_real_distribution predicted %s, the harness drew %r" % (c.meta["u1_expect"], impl.get("u1")))
     if c.kind == "plain":
         if not near:
             if not same_bits(col(impl, "parents"), col(model, "parents")):
@@ -267,7 +392,7 @@ def oracle(c, impl, model):
     N = int(c.meta["N"]); dl, dc = int(c.meta["dl"]), int(c.meta["dc"])
     lw = c.get("lw").reshape(-1)
     w = np.exp(lw)
-    near = near_boundary(model) if model is not None else False
+    near = near_boundary(model) if (model is not None and c.kind != "plain") else False
     par = col(impl, "parents")
     wt = col(impl, "weights")
     if impl.get("cor_unchanged") != 1:
@@ -279,8 +404,18 @@ def oracle(c, impl, model):
         v.append(("C07:neff-formula", "neff %r, 1/sum w^2 %r" % (ne, spec)))
     if abs(float(np.sum(w)) - 1.0) < 1e-12 and not (1.0 - 1e-9 <= ne <= N + 1e-9):
         v.append(("C07:neff-range", "neff %r outside [1, %d]" % (ne, N)))
-    sizes = [impl.get(k) for k in ("components", "state_cols", "mean_cols", "weight_rows")] + [impl.get("cov_cols") // max(1, dl + dc)]
+    d, dcov = dims(c.meta)
+    quat = int(c.meta.get("quat", 0))
+    sizes = [impl.get(k) for k in ("components", "state_cols", "mean_cols", "weight_rows")] + [impl.get("cov_cols") / float(max(1, dcov))]
     logN = -math.log(N)
+    # storage shapes against the descriptors of the returned set
+    shape = {"use_quaternion": quat, "dim": d, "dim_covariance": dcov, "state_rows": d, "mean_rows": d, "cov_rows": dcov}
+    wrong = {k: impl.get(k) for k, x in shape.items() if impl.get(k) != x}
+    if wrong or impl.get("cov_cols") != dcov * N:
+        v.append(("C07:prior-storage-shape" if c.kind == "prior" else "C07:storage-shape",
+                  "layout (dl=%d, dc=%d, quaternion=%d), N=%d: expected %s and %d covariance columns, got %s, cov_cols=%s"
+                  % (dl, dc, quat, N, shape, dcov * N, wrong, impl.get("cov_cols"))))
+        return v
     if c.kind == "plain":
         if any(s != N for s in sizes):
             v.append(("C07:length", "N=%d, reported components/state/mean/weight/cov sizes %s" % (N, sizes))); return v
@@ -324,6 +459,8 @@ def oracle(c, impl, model):
         v.append(("C07:prior-left-not-fresh", "initialize called %s times on a set of %s (expected %d, %d)" % (impl.get("init_calls"), impl.get("init_size"), draws, npri)))
     elif not same_bits(impl.get("state")[:, :npri], fresh_expected(c, npri)):
         v.append(("C07:prior-left-not-fresh", "the first %d particles are not the initialiser's" % npri))
+    elif np.any(impl.get("mean")[:, :npri] != 0.0) or np.any(impl.get("cov")[:, :npri * dcov] != 0.0):
+        v.append(("C07:prior-left-not-fresh", "mean/covariance of the first %d particles are not those of a fresh set (zero)" % npri))
     pr = par[npri:]
     if np.any(pr < 0) or np.any(pr >= N) or np.any(pr != np.round(pr)):
         v.append(("C07:prior-right-parent-range", "parents %s" % pr[:12])); return v
@@ -354,8 +491,12 @@ def oracle(c, impl, model):
 
 
 def histogram(cases):
-    h = {"kind": {}, "cls": {}, "ratio": {}}
+    h = {"kind": {}, "cls": {}, "ratio": {}, "layout": {}, "two_calls_different_N": 0}
     for c in cases:
+        lay = "quaternion" if int(c.meta.get("quat", 0)) else ("euler" if int(c.meta["dc"]) > 0 else "linear")
+        lay += "" if int(c.meta["dl"]) > 0 else "-only"
+        h["layout"][lay] = h["layout"].get(lay, 0) + 1
+        h["two_calls_different_N"] += 1 if "first" in c.meta else 0
         h["kind"][c.kind] = h["kind"].get(c.kind, 0) + 1
         h["cls"][c.meta["cls"]] = h["cls"].get(c.meta["cls"], 0) + 1
         if c.kind == "prior":
